@@ -151,9 +151,9 @@ def validate_scope_states(chk, pairs, what):
     for s, o in pairs:
         if "st" not in o or o.get("arch", "msgpack") != "msgpack":
             continue
-        if o.get("medium") == "nonseek" and o.get("refused"):
-            # Dev_NonSeekableStream (same guard as in judge()): the reader failed inside a call when the stream buffer refused to seek;
-            # the cursor left behind by the failed skip is M's error state, which carries no position to compare
+        if o.get("medium") == "nonseek" and o.get("refused") and "exp" in s and not matches(s["exp"], o):
+            # Dev_NonSeekableStream (same guard as in judge(): the outcome deviates and the stream buffer recorded a refused seek): the
+            # reader failed inside a call; the cursor left behind by the failed skip is M's error state, which carries no position to compare
             chk.cov["scope_state_runs_with_refused_seek"] = chk.cov.get("scope_state_runs_with_refused_seek", 0) + 1
             continue
         cur = {}
